@@ -142,10 +142,38 @@ class _Gen:
             return r.choice(self.bools)
         return "not c1"
 
+    def dead_operand(self):
+        """An operand that (re)binds a variable; placed where a literal constant makes it dead."""
+        r = self.r
+        v = r.choice(self.sure) if (self.sure and self.chance(0.7)) else self.pick_target()
+        if v not in POOL:
+            v = self.pick_target()
+        return "(%s := %s) > 0" % (v, r.choice(["2.5", "2.5", "2", "n", "1.5"]))
+
+    def const_operand_cond(self):
+        """Short-circuit / conditional conditions with a literal constant operand: the other operand
+        is never evaluated (dead), but both its branch targets are live."""
+        r = self.r
+        c = r.choice(["c1", "c2", "n > 0", "not c1"])
+        b = self.dead_operand()
+        return r.choice([
+            "(False and %s) or %s" % (b, c),
+            "(True or %s) and %s" % (b, c),
+            "%s and (True or %s)" % (c, b),
+            "%s or (False and %s)" % (c, b),
+            "not (True or %s)" % b,
+            "not (False and %s)" % b,
+            "(%s if False else %s)" % (b, c),
+            "(%s if True else %s)" % (c, b),
+            "(False and %s) or (True and %s)" % (b, c),
+        ])
+
     def expr_cond(self):
         """A condition with expression-level control flow and/or bindings."""
         r = self.r
         d = self.base + 1       # bindings inside conditions are recorded as 'not sure'
+        if self.consts and self.chance(0.45):
+            return self.const_operand_cond()
         u = r.random()
         if u < 0.22:
             v = self.pick_target()
@@ -169,6 +197,18 @@ class _Gen:
 
     def expr_stmt(self, depth):
         r = self.r
+        if self.consts and self.chance(0.18):
+            if self.chance(0.5):
+                b = r.choice(["bk", "bj"])
+                if b not in self.bools:
+                    self.bools.append(b)
+                return "%s = %s" % (b, self.const_operand_cond())
+            v = self.pick_target()
+            self.note_assign(v, depth)
+            w = r.choice(self.sure) if self.sure else self.pick_target()
+            if w not in POOL:
+                w = self.pick_target()
+            return r.choice(["%s = (%s := 2.5) if False else 2", "%s = 2 if True else (%s := 2.5)"]) % (v, w)
         u = r.random()
         if u < 0.42:
             # comprehension: the loop variable is local to it (may shadow an outer local)
